@@ -35,7 +35,7 @@ var mixDefNames = []string{"rec-le-ts-first", "rec-be-ts-mid", "rec-le-no-ts", "
 func (o mixOp) String() string {
 	switch o.Kind {
 	case 0:
-		return fmt.Sprintf("def(l%d,%s)", o.Local, mixDefNames[o.Def])
+		return fmt.Sprintf("def(l%d,%s)", o.Local, mixDefName(o.Def))
 	case 1:
 		return fmt.Sprintf("data(l%d)", o.Local)
 	case 3:
@@ -44,9 +44,19 @@ func (o mixOp) String() string {
 	return fmt.Sprintf("cdata(l%d)", o.Local)
 }
 
+// mixDefName: shapes from 100 on are not part of the word alphabet; the long runs use them.
+func mixDefName(k int) string {
+	if k == 100 {
+		return "unknown-msg-colliding-fields"
+	}
+	return mixDefNames[k]
+}
+
 func mixDef(k int, local byte) fitmodel.Def {
 	F := func(n, s, b byte) fitmodel.FieldDef { return fitmodel.FieldDef{Num: n, Size: s, Base: b} }
 	switch k {
+	case 100: // a message outside the profile whose field numbers are those of record fields, with other types and sizes
+		return fitmodel.Def{Local: local, Global: 0xFF01, Fields: []fitmodel.FieldDef{F(3, 4, fitmodel.String), F(0, 3, fitmodel.Byte), F(253, 2, fitmodel.String), F(5, 8, fitmodel.Float64), F(4, 6, fitmodel.Uint16)}}
 	case 0:
 		return fitmodel.Def{Local: local, Global: 20, Fields: []fitmodel.FieldDef{F(253, 4, fitmodel.Uint32), F(3, 1, fitmodel.Uint8), F(5, 4, fitmodel.Uint32)}}
 	case 1:
@@ -262,11 +272,12 @@ func mixCheckOpts(stream []byte) string {
 }
 
 type mixReplayT struct {
-	Opts   bool    `json:"with_options,omitempty"`
-	Mix    bool    `json:"mix"`
-	Ops    []mixOp `json:"ops,omitempty"`
-	Word   string  `json:"word,omitempty"`
-	Stream string  `json:"stream"`
+	Opts   bool     `json:"with_options,omitempty"`
+	Mix    bool     `json:"mix"`
+	Ops    []mixOp  `json:"ops,omitempty"`
+	Word   string   `json:"word,omitempty"`
+	Stream string   `json:"stream"`
+	Long   *longRun `json:"long_run,omitempty"`
 }
 
 // mixReplay: shared by the Replay functions of the properties that run the family.
@@ -274,6 +285,12 @@ func mixReplay(raw json.RawMessage) (string, bool, error) {
 	var r mixReplayT
 	if json.Unmarshal(raw, &r) != nil || !r.Mix {
 		return "", false, nil
+	}
+	if r.Long != nil {
+		if msg := r.Long.check(); msg != "" {
+			return "", true, fmt.Errorf("%s: %s", r.Word, msg)
+		}
+		return r.Word + ": ok", true, nil
 	}
 	b, err := hex.DecodeString(r.Stream)
 	if err != nil {
